@@ -196,7 +196,7 @@ func IsStartWithDirective(b bytes.Bytes) bool {
 
 	switch b[0] { // response directive 100, 200, 300 etc
 	case '1', '2', '3', '4', '5':
-		if IsHTTPResponseCode(string(b[0:3])) {
+		if IsHTTPResponseCode(string(b[0:3])) && endsKeyword(b, 3) {
 			return true
 		}
 	}
@@ -208,10 +208,24 @@ func IsStartWithDirective(b bytes.Bytes) bool {
 		if de == HTTPResponseCode {
 			continue
 		}
-		if strings.HasPrefix(s, de.String()) {
+		if strings.HasPrefix(s, de.String()) && endsKeyword(b, len(de.String())) {
 			return true
 		}
 	}
 
+	return false
+}
+
+// endsKeyword: the keyword that b begins with ends at n — the line ends there, or a byte follows that may
+// follow a keyword (a blank, a line end, the beginning of a comment or of a path / an annotation). A word
+// that merely begins with the letters of a keyword ("Requests", "URLs", "200ms") is not a directive.
+func endsKeyword(b bytes.Bytes, n int) bool {
+	if len(b) <= n {
+		return true
+	}
+	switch b[n] {
+	case ' ', '\t', '\r', '\n', '#', '/':
+		return true
+	}
 	return false
 }
